@@ -104,6 +104,14 @@ func top(r *vf.Run) {
 	nSeq := r.N(200, 2400)
 	nConc := r.N(60, 360)
 	nFuse := r.N(16, 120)
+	if only := os.Getenv("C16_ONLY"); only != "" { // debugging aid: "stage:lo:hi", e.g. seq:8:9 (with C16_REPEAT=n)
+		f := strings.Split(only, ":")
+		if len(f) == 3 {
+			ex := r.RunChild(vf.ChildSpec{Stage: f[0], Args: []string{f[1], f[2], filepath.Join(r.Scratch, "journal-only")}, Race: f[0] == "conc", Timeout: 20 * time.Minute, Attribution: attribution, Exclude: exclude})
+			r.Logf("child exit=%d signal=%q partial=%v", ex.ExitCode, ex.Signal, ex.Partial)
+			return
+		}
+	}
 	walls := map[string]float64{}
 	timed := func(stage string, f func()) {
 		t := time.Now()
@@ -115,7 +123,10 @@ func top(r *vf.Run) {
 	timed("conc", func() { runBatches(r, "conc", nConc, r.N(60, 120), true) })
 	defer func() { r.Set("stage_wall_s", walls) }()
 	if fuseProbe(r) {
+		stop := make(chan struct{})
+		go fuseReaper(r, stop)
 		timed("fuse", func() { runBatches(r, "fuse", nFuse, r.N(16, 60), false) })
+		close(stop)
 	} else {
 		r.Inconclusive("capability: FUSE mounts are not available; the fuse stage (store/fs.go through the kernel) was skipped")
 	}
@@ -188,6 +199,64 @@ func runBatches(r *vf.Run, stage string, n, batch int, race bool) {
 			return
 		}
 	}
+}
+
+// fuseReaper: a process that hosts a FUSE daemon and is also a client of that mount cannot
+// die while one of its threads waits for an answer of its own daemon (the kernel aborts the
+// connection only when the last thread is gone). While the fuse stage runs, the parent
+// watches for a child whose main thread has exited but which cannot be reaped, and
+// force-unmounts (MNT_FORCE aborts the connection) what is mounted below the scratch
+// directory. Parent and children share the private mount namespace run.sh created.
+func fuseReaper(r *vf.Run, stop <-chan struct{}) {
+	for {
+		select {
+		case <-stop:
+			return
+		case <-time.After(500 * time.Millisecond):
+		}
+		if !hasZombieChild() {
+			continue
+		}
+		time.Sleep(300 * time.Millisecond) // an ordinary exit is reaped at once
+		if !hasZombieChild() {
+			continue
+		}
+		b, _ := os.ReadFile("/proc/self/mountinfo")
+		for _, line := range strings.Split(string(b), "\n") {
+			f := strings.Fields(line)
+			i := strings.Index(line, " - fuse")
+			if len(f) < 5 || i < 0 || !strings.HasPrefix(f[4], r.Scratch) {
+				continue
+			}
+			if err := syscall.Unmount(f[4], syscall.MNT_FORCE); err == nil || err == syscall.EBUSY {
+				r.Count("fuse_connections_aborted_for_dead_child", 1)
+			}
+		}
+	}
+}
+
+func hasZombieChild() bool {
+	me := strconv.Itoa(os.Getpid())
+	ds, _ := os.ReadDir("/proc")
+	for _, d := range ds {
+		if n := d.Name(); n[0] < '0' || n[0] > '9' {
+			continue
+		}
+		b, err := os.ReadFile("/proc/" + d.Name() + "/stat")
+		if err != nil {
+			continue
+		}
+		st := string(b)
+		i := strings.LastIndex(st, ")")
+		if i < 0 {
+			continue
+		}
+		f := strings.Fields(st[i+1:])
+		if len(f) >= 2 && f[0] == "Z" && f[1] == me {
+			return true
+		}
+	}
+	return false
 }
 
 func lastLine(s string) string {
@@ -324,7 +393,13 @@ func child(r *vf.Run) {
 		wg.Wait()
 		return
 	}
+	rep := 1
+	if n, err := strconv.Atoi(os.Getenv("C16_REPEAT")); err == nil && n > 1 {
+		rep = n
+	}
 	for i := lo; i < hi && r.Violations() <= 40; i++ {
-		one(i)
+		for j := 0; j < rep; j++ {
+			one(i)
+		}
 	}
 }
